@@ -1,8 +1,13 @@
 use crate::{device::Device, expr::Expr, instruction::register::Reg8, parser::SegmentType};
 
-use std::{cell::RefCell, collections::HashMap, rc::Rc};
+use std::{cell::RefCell, rc::Rc};
 
+#[cfg(avra_verif)]
+use crate::{vmap::HashMap, vmap_hashmap as hashmap};
+#[cfg(not(avra_verif))]
 use maplit::hashmap;
+#[cfg(not(avra_verif))]
+use std::collections::HashMap;
 
 pub trait Context {
     fn get_define(&self, _name: &String) -> Option<Expr>;
